@@ -31,6 +31,50 @@ def select(prop, rec):
     return bool(ks & {"or", "then", "not"})
 
 
+def cut_scope_scenarios():
+    """a cut belongs to one predicate (name AND arity) and to the clauses of one definition: predicates of the same
+    name with other arities after a catch-all clause that cuts first; predicates whose clauses all end in a cut,
+    called from other clauses, with facts asserted for them through the API, natives registered and further
+    definitions loaded under the same name/arity afterwards"""
+    from ..terms import A, I, V, C, lst, clause, call, and_, conj, TRUE, FAIL, CUT
+    X, Y, M = V(0), V(1), V(2)
+    scns = []
+    item = [clause(C("item", A("i1"))), clause(C("item", A("i2"))), clause(C("item", A("i3")))]
+    for first in ([clause(C("pick", X), conj(CUT, call(C("item", X))))], [clause(C("pick", V(900)), CUT)], [clause(C("pick", X), conj(call(C("item", X)), CUT))]):
+        script = {"item/1": item, "pick/1": first + [clause(C("pick", A("never")))],
+                  "pick/2": [clause(C("pick", X, A("first")), conj(call(C("item", X)), CUT)), clause(C("pick", X, A("all")), call(C("item", X)))],
+                  "pick/0": [clause(A("pick"))],
+                  "top/2": [clause(C("top", X, M), call(C("pick", X, M)))]}
+        steps = [[{"op": "load", "e": 1, "script": "P", "ow": True}]]
+        for j, (g, q) in enumerate([(C("pick", V(0)), 1), (C("pick", V(0), A("first")), 1), (C("pick", V(0), A("all")), 1), (C("pick", V(0), V(1)), 2), (A("pick"), 0), (C("top", V(0), V(1)), 2)]):
+            steps.append([{"op": "solve", "e": 1, "r": j + 1, "goal": g, "qnv": q, "k": 0}])
+        scns.append({"scripts": {"P": script}, "steps": steps, "keys": []})
+    cand = [clause(C("cand", A("c1"))), clause(C("cand", A("c2")))]
+    script = {"cand/1": cand, "best/1": [clause(C("best", X), conj(call(C("cand", X)), CUT)), clause(C("best", A("fallback")), CUT)],
+              "report/1": [clause(C("report", X), call(C("best", X)))],
+              "both/2": [clause(C("both", X, Y), conj(call(C("best", X)), call(C("best", Y))))],
+              "firstof/1": [clause(C("firstof", X), conj(call(C("best", X)), CUT))]}
+    more = {"best/1": [clause(C("best", A("later1"))), clause(C("best", A("later2")), CUT), clause(C("best", A("never")))]}
+    rows = [{"args": [A("py1")], "nv": 0}, {"args": [A("py2")], "nv": 0}]
+    probes = [(C("best", V(0)), 1), (C("report", V(0)), 1), (C("both", V(0), V(1)), 2), (C("firstof", V(0)), 1), (C("findall", V(0), C("report", V(0)), V(1)), 2)]
+    for pre in ([], [{"op": "assert", "e": 1, "term": C("best", A("manual1")), "atEnd": True, "r": 0}, {"op": "assert", "e": 1, "term": C("best", A("manual2")), "atEnd": True, "r": 0}]):
+        for post in ([], [{"op": "load", "e": 1, "script": "M", "ow": False}],
+                     [{"op": "register", "e": 1, "name": "best", "arity": 1, "style": "explicit", "fid": "best", "rows": rows, "raise": {"call": 0, "row": 0}, "yields": False}],
+                     [{"op": "register", "e": 1, "name": "best", "arity": 1, "style": "explicit", "fid": "best", "rows": rows, "raise": {"call": 0, "row": 0}, "yields": True},
+                      {"op": "load", "e": 1, "script": "M", "ow": False}]):
+            steps = [[{"op": "load", "e": 1, "script": "P", "ow": True}]] + [[o] for o in pre]
+            r = 0
+            for g, q in probes:
+                r += 1
+                steps.append([{"op": "solve", "e": 1, "r": r, "goal": g, "qnv": q, "k": 0}])
+            steps += [[o] for o in post]
+            for g, q in probes:
+                r += 1
+                steps.append([{"op": "solve", "e": 1, "r": r, "goal": g, "qnv": q, "k": 0}])
+            scns.append({"scripts": {"P": script, "M": more}, "steps": steps, "keys": [{"n": "best", "k": 1}]})
+    return scns
+
+
 def head_cut_scenarios():
     """cuts combined with head unification: clauses whose heads repeat variables, contain constants or
     structures, with a neck cut / cut-fail / cut after a goal, followed by further clauses"""
@@ -140,12 +184,17 @@ def run_bodies(prop, tier, seed):
         chk.machine_family("data-dependent-bodies-%d" % (i // 5000), dd[i:i + 5000], props=("CleanAfterEnd", "BarriersOK"), features=features, opts_list=MODES)
     if prop == "C05":
         chk.machine_family("heads-with-cuts", head_cut_scenarios(), props=("CleanAfterEnd", "BarriersOK"), features=features)
+        chk.machine_family("scope-of-a-cut-name-arity-definition", cut_scope_scenarios(), {"must_complete": True}, props=("CleanAfterEnd", "BarriersOK"), features=features,
+                           opts_list=[{"must_complete": True, "mode": "full"}, {"must_complete": True, "mode": "minimal"}])
         SG = gen.scale_groups()
         chk.machine_family("scale-many-clauses-with-cuts", SG["manyclauses-cut"], {"budget_extra": 20000000, "must_complete": True}, props=("CleanAfterEnd", "BarriersOK"), features=features, max_steps=8000)
         chk.machine_family("scale-many-cuts-then-evaluate_bounded", SG["cuts-then-bounded"], {"budget_extra": 20000000, "must_complete": True}, props=("CleanAfterEnd", "BarriersOK"), features=features, max_steps=30000)
     if prop == "C06":
         rs = gen.reentered_scenarios(rnd, 700 if tier == "quick" else None)
         chk.machine_family("constructs-re-entered-per-answer", rs, props=("CleanAfterEnd", "BarriersOK"), features=features, opts_list=MODES)
+        chk.machine_family("terms-that-print-alike-in-one-clause", gen.twin_scenarios(), {"must_complete": True}, props=("CleanAfterEnd", "BarriersOK"), features=features, opts_list=MODES)
+        chk.machine_family("user-predicates-named-like-control-words", [s_ for s_ in gen.special_name_scenarios() if "not/1" in s_["scripts"]["P"] or "call_1/1" in s_["scripts"]["P"]],
+                           props=("CleanAfterEnd", "BarriersOK"), features=features, opts_list=MODES)
         mc = gen.many_construct_scenarios()
         if tier == "quick":
             rnd.shuffle(mc)
